@@ -55,6 +55,18 @@ func runC24(c *Ctx) {
 			return true
 		})
 		c.Check(okArg, "buffer-unchanged", "the caller's buffer is handed to the codec writer as is", c.P.Pos(fn.Decl.Pos()), "")
+		reassigned := ""
+		ast.Inspect(fn.Decl.Body, func(n ast.Node) bool {
+			if as, ok := n.(*ast.AssignStmt); ok {
+				for _, l := range as.Lhs {
+					if id, ok := l.(*ast.Ident); ok && info.ObjectOf(id) == types.Object(params.At(0)) {
+						reassigned = c.P.Pos(as.Pos())
+					}
+				}
+			}
+			return true
+		})
+		c.Check(reassigned == "", "buffer-not-truncated", "Write never reassigns or re-slices the caller's buffer: all of p is handed to the codec (callers ignore the count, relying on io.Writer's all-or-error contract)", c.P.Pos(fn.Decl.Pos()), "the buffer parameter is reassigned at "+reassigned+": a write may silently send only part of its input")
 		allN := true
 		for _, a := range f.Find(IsReturn) {
 			r := a.N.(*ast.ReturnStmt)
